@@ -26,6 +26,7 @@ type ReqCase struct {
 	FailWrites bool                `json:"failWrites"` // the ResponseWriter's Write fails (client went away)
 	Cancelled  bool                `json:"cancelled"`  // the request context is already cancelled
 	Chunked    bool                `json:"chunked"`    // the body arrives with unknown length (Transfer-Encoding: chunked): ContentLength -1, as a server sees it
+	Reads      *ReadPlan           `json:"reads,omitempty"` // how the body arrives: one behaviour of Stream.tla's source
 }
 
 // countingWriter observes how a response is written.
@@ -72,7 +73,7 @@ func Serve(h http.Handler, rec *Recorder, c ReqCase) {
 		if c.BodyB64 {
 			bs = unb64(c.Body)
 		}
-		body = newNetBody(bs, "request")
+		body = newPlannedBody(bs, "request", c.Reads)
 		bodyLen = int64(len(bs))
 	}
 	r := &http.Request{
